@@ -62,7 +62,7 @@ impl Property for C12 {
         }
     }
     fn rule(&self) -> &'static str {
-        "one run = one generated (document incl. empty and meta-charset documents, handler set, delivery schedule incl. empty writes, sink kind, graceful flags); a fault-free pre-run discovers the fault points; then one case per handler invocation index 1..N (handler returns Err before or after its script; all indices when N <= 40/120, else a seeded sample) and one case per limiter charge (limit = accounted usage after that charge minus one; all charges when <= 30/100), each followed by 0-2 further write() calls on the poisoned rewriter; the ordered log of sink calls and API results is checked; non-trivial = markup present and a fault fired or a cut inside the document; distinct by scenario fingerprint"
+        "one run = one generated (document incl. empty and meta-charset documents, handler set, delivery schedule incl. empty writes, sink kind, graceful flags); a fault-free pre-run discovers the fault points; then one case per handler invocation index 1..N (handler returns Err before or after its script; all indices when N <= 40/120, else a seeded sample) and one case per limiter charge (limit = accounted usage after that charge minus one; all charges when <= 30/100), plus up to 2/6 cases in which one inserted content of the handler set becomes a streaming handler that returns Err after writing its pieces (failure during token serialisation), each followed by 0-2 further write() calls on the poisoned rewriter; the ordered log of sink calls and API results is checked; non-trivial = markup present and a fault fired or a cut inside the document; distinct by scenario fingerprint"
     }
     fn assumptions(&self) -> Vec<&'static str> {
         vec![
@@ -91,6 +91,21 @@ impl Property for C12 {
             ex.stats.bump("fault.handler_error_planned");
             if !ex.check(Case::of(sc)) {
                 return;
+            }
+        }
+        // a streaming content handler failing while its token is being serialised
+        let nc = count_contents(&base.handlers);
+        if nc > 0 {
+            for _ in 0..nc.min(if tier == Tier::Quick { 2 } else { 6 }) {
+                let mut sc = base.clone();
+                let Some(hs) = with_stream_fault(&base.handlers, rng.below(nc) as usize, rng.range(1, 3) as u8) else { break };
+                sc.handlers = hs;
+                sc.graceful_handler = rng.chance(1, 3);
+                sc.misuse_calls = rng.below(3) as u8;
+                ex.stats.bump("fault.stream_failure_planned");
+                if !ex.check(Case::of(sc)) {
+                    return;
+                }
             }
         }
         let limits = faults::mem_limits(&pre, base.prealloc);
